@@ -6,7 +6,7 @@ HERE=$(cd "$(dirname "$0")/.." && pwd)
 BIN="$HERE/sim/target/release/pmtsim"
 SCALE=${SCALE:-0.25}
 fail=0
-for seed in 20260926 7; do
+for seed in ${SEEDS:-20260926 7}; do
   for p in $("$BIN" list); do
     ref=""
     for jobs in 16 1 3 16; do
